@@ -27,7 +27,7 @@ def sh(cmd, cwd=None, env=None, timeout=None, input=None):
     """run, return (rc, stdout+stderr)"""
     try:
         p = subprocess.run(cmd, cwd=cwd, env=env, timeout=timeout, input=input,
-                           stdout=subprocess.PIPE, stderr=subprocess.STDOUT, text=True,
+                           stdout=subprocess.PIPE, stderr=subprocess.STDOUT, text=True, errors="replace",
                            shell=isinstance(cmd, str))
         return p.returncode, p.stdout
     except subprocess.TimeoutExpired as e:
